@@ -168,6 +168,10 @@ tree_api!(T32a32u64, AVLTreeMut, AVLTree, 4, 24, u32, A32, u64);
 tree_api!(T32u128u64, AVLTreeMut, AVLTree, 4, 24, u32, u128, u64);
 tree_api!(T32u32bps, AVLTreeMut, AVLTree, 4, 24, u32, u32, Bps);
 tree_api!(T32idtagu8, AVLTreeMut, AVLTree, 4, 24, u32, IdTag, u8);
+tree_api!(T8b3b12, U8AVLTreeMut, U8AVLTree, 1, 8, u8, B3, B12);
+tree_api!(T32b3u32, AVLTreeMut, AVLTree, 4, 24, u32, B3, u32);
+tree_api!(T32u32unit, AVLTreeMut, AVLTree, 4, 24, u32, u32, ());
+tree_api!(T8u8unit, U8AVLTreeMut, U8AVLTree, 1, 8, u8, u8, ());
 tree_api!(T8idtagu8, U8AVLTreeMut, U8AVLTree, 1, 8, u8, IdTag, u8);
 tree_api!(T8u8bps, U8AVLTreeMut, U8AVLTree, 1, 8, u8, u8, Bps);
 tree_api!(T8u128u8, U8AVLTreeMut, U8AVLTree, 1, 8, u8, u128, u8);
